@@ -178,6 +178,37 @@ consulted); the value type of a map goes through `type_ref` like a member (`Hash
 def expectBoxedAt (deps : List (Name × List Name)) (discVariant : Bool) (via : List Via) (t : Name) : Option Bool :=
   if via.contains .vec then some false else expectBoxed deps discVariant t
 
+/-! ### `#[serde(untagged)]` unions of object members (C10, round trip of recursive documents)
+
+Trusted semantics (serde_derive): an untagged enum is read by trying the variants IN DECLARATION ORDER; a struct
+variant accepts an object iff every member that serde may not omit is present (unknown keys are ignored unless
+`deny_unknown_fields`); what is written back are the members of the variant that was chosen.  Documents are
+abstracted to their key sets: the members of one union use different member names, nested union values are
+documents of the same union and are judged on their own. -/
+
+structure UVariant where
+  payload : Name                 -- the struct the variant wraps
+  required : List Name           -- wire names serde insists on
+  wires : List Name              -- every wire name of the struct
+  closed : Bool := false         -- `deny_unknown_fields`
+  deriving DecidableEq, Repr
+
+def UVariant.accepts (v : UVariant) (keys : List Name) : Bool :=
+  v.required.all keys.contains && (!v.closed || keys.all v.wires.contains)
+
+/-- the variant an object with these keys is decoded as -/
+def chooseVariant (vs : List UVariant) (keys : List Name) : Option UVariant := vs.find? (·.accepts keys)
+
+/-- does the object come back with all its keys? -/
+def keysPreserved (vs : List UVariant) (keys : List Name) : Bool :=
+  match chooseVariant vs keys with
+  | some v => keys.all v.wires.contains
+  | none => false
+
+/-- the order of the payload types as they should be declared: the order of the `$ref` members in the spec -/
+def expectedVariantOrder (specMembers : List Name) (emitted : List Name) : List Name :=
+  specMembers.filter emitted.contains
+
 /-! ### duplicate response enums (postprocess/response_enum.rs): operations with the same response signature
 share ONE response enum — the canonical one (shortest name, then alphabetical); the others are removed from the
 type list by index -/
